@@ -983,9 +983,12 @@ func runSchedAll(c *rt.Ctx, prop string, names []string, bound int) {
 			c.Exhaustive = false
 			return
 		}
-		st := sched.Explore(c, prop, n, bound)
-		sched.Report(c, n, bound, st)
-		fmt.Printf("  schedules %-32s bound %d/%d executions %d outcomes %d overlapping %d complete=%v\n", n, st.BoundDone, bound, st.Executions, len(st.Outcomes), st.Collisions, st.Complete)
+		st := sched.Stats{Complete: true}
+		if os.Getenv("VERIF_DEV_E1ALLONLY") == "" { // development aid: the unbounded search alone
+			st = sched.Explore(c, prop, n, bound)
+			sched.Report(c, n, bound, st)
+			fmt.Printf("  schedules %-32s bound %d/%d executions %d outcomes %d overlapping %d complete=%v\n", n, st.BoundDone, bound, st.Executions, len(st.Outcomes), st.Collisions, st.Complete)
+		}
 		if sc := schedScns[n]; sc == nil || sc.custom != nil || !st.Complete {
 			continue
 		}
